@@ -24,7 +24,7 @@ func init() {
 			"strings and names contain no CR; strict enum columns with nulls are read back with EmptyNull unless \"\" is declared",
 			"null strings return as \"\" without EmptyNull, all empty strings return as null with EmptyNull",
 		},
-		Stages:   stages(20000, 400000, 0, 0),
+		Stages:   stages(20000, 4000000, 0, 0),
 		RunCase:  runC13,
 		Conclude: shapeConclude(35),
 	})
